@@ -53,6 +53,10 @@ class Elem(Cell):
         self.dom.on_write(self.arr, self.idx, self.site)
         if self.arr.elem == "int":
             self.arr.ints[self.idx] = v
+            wl = getattr(self.arr, "wlog", None)
+            if wl is None:
+                wl = self.arr.wlog = {}
+            wl.setdefault(self.idx, set()).add(v)
 
 
 class PtrInto:
@@ -146,12 +150,17 @@ class ConcDomain(Domain):
         for k, c in o.f.items():
             x = c.get()
             if isinstance(x, Arr):
-                a = Arr(x.name, x.length, x.elem, dict(x.ints))
-                x = a
+                x = self.clone_arr(x)
             elif isinstance(x, Obj):
                 x = self.clone_obj(x)
             n.f[k] = Cell(x, k)
         return n
+
+    def clone_arr(self, x):
+        a = Arr(x.name, x.length, x.elem, dict(x.ints))
+        if hasattr(x, "wlog"):
+            a.wlog = {k: set(v) for k, v in x.wlog.items()}
+        return a
 
     def new_object(self, cls, e, fr):
         o = Obj(cls)
@@ -324,6 +333,8 @@ class ConcDomain(Domain):
         if k == "Construct" and (e.get("copy") or e.get("move")) and len(args) == 1:
             v = it.rvalue(args[0], fr)
             return self.copy_value(v, e.get("t", ""))
+        if k == "Construct" and e.get("t", "").replace("const ", "").startswith("std::unique_ptr<") and len(args) <= 1:
+            return it.rvalue(args[0], fr) if args else None
         if k == "Construct" and e.get("t", "").startswith("std::function<") and len(args) == 1:
             return it.rvalue(args[0], fr)
         if k == "OpCall" and e["op"] == "()" and args:
@@ -433,7 +444,20 @@ class ConcDomain(Domain):
         return None
 
     def init_list(self, e, fr):
-        vals = [self.interp.rvalue(x, fr) for x in e["elems"]]
+        import re
+        t = e.get("t", "")
+        m = re.match(r"^(const\s+)?std::array<\s*int\s*,\s*(\d+)\s*>", t)
+        elems = e["elems"]
+        while len(elems) == 1 and elems[0].get("k") == "InitList":
+            elems = elems[0]["elems"]
+        if m or re.match(r"^(const\s+)?int\s*\[(\d+)\]", t):
+            n = int(m.group(2)) if m else int(re.match(r"^(const\s+)?int\s*\[(\d+)\]", t).group(2))
+            a = Arr("array", n, elem="int")
+            a.ints = {i: 0 for i in range(n)}
+            for i, x in enumerate(elems):
+                a.ints[i] = self.interp.rvalue(x, fr)
+            return a
+        vals = [self.interp.rvalue(x, fr) for x in elems]
         if all(isinstance(v, int) and not isinstance(v, bool) for v in vals):
             a = Arr("initlist", len(vals), elem="int")
             a.ints = dict(enumerate(vals))
